@@ -91,3 +91,8 @@ CALL_SCRIPTS_THOROUGH = {
     "delete_many": [(3, (b"DELETED", b"NOT_FOUND", b"DELETED"))],
     "stats": [(0, (b"STAT pid 1", b"STAT uptime 2", b"STAT curr_items 3", b"STAT version 1.6.21", b"END"))],
 }
+
+
+# the wall clocks a module may read the time from: the failover / idle-expiry rules need the readings to be comparable
+# and non-decreasing, which all of these are (time.monotonic even under clock adjustments)
+CLOCKS = ("time.time", "time.monotonic", "time.perf_counter")
